@@ -212,6 +212,32 @@ def hygiene_programs():
                 pass
             out.append(("free/%s/%s" % (fname, sk), [pre, d + " " + use], {"F": spelled}, {"F": "zzfreshf"}))
             out.append(("free-same-unit/%s/%s" % (fname, sk), [pre + " " + d + " " + use], {"F": spelled}, {"F": "zzfreshf"}))
+    # a literal of the macro spelled like a use-site binding: inside the scope of that binding the identifier is a variable, not the keyword,
+    # however many scopes lie in between (re-spelling the literal AND the user's binding together must not change the result)
+    lit_uses = [("let", "(let (({U} 9)) (kw 1 {U} 2))"), ("lambda", "((lambda ({U}) (kw 1 {U} 2)) 9)"), ("let-let", "(let (({U} 9)) (let ((y 1)) (kw y {U} 2)))"),
+                ("lambda-let", "((lambda ({U}) (let ((y 1)) (kw y {U} 2))) 9)"), ("let-lambda-let", "(let (({U} 9)) ((lambda (z) (let ((y 1)) (kw y {U} z))) 2))"),
+                ("let-let-let", "(let (({U} 9)) (let ((y 1)) (let ((w 2)) (kw y {U} w))))"), ("internal-define", "(let () (define {U} 9) (let ((y 1)) (kw y {U} 2)))"),
+                ("unshadowed", "(let ((q 9)) (kw 1 {L} 2))"), ("cond-like", "((lambda ({U}) (let ((y #f)) (my-cond (y 'first) ({U} 'second)))) #f)")]
+    for litname in ("=>", "else", "lit"):
+        d = ("(define-syntax kw (syntax-rules ({L}) [(_ a {L} b) (list 'arrow a b)] [(_ a b c) (list 'plain a b c)])) "
+             "(define-syntax my-cond (syntax-rules ({L}) [(_) 'none] [(_ ({L} e)) e] [(_ (c e) rest ...) (if c e (my-cond rest ...))]))")
+        for uk, use in lit_uses:
+            # colliding: the user's variable is spelled like the literal; fresh: literal and variable differ
+            out.append(("literal-shadowed/%s/%s" % (litname, uk), [d + " " + use], {"L": litname, "U": litname}, {"L": litname, "U": "zzfreshu"}))
+            out.append(("literal-shadowed-earlier-unit/%s/%s" % (litname, uk), [d, use], {"L": litname, "U": litname}, {"L": litname, "U": "zzfreshu"}))
+    # free identifiers of the template inside repeated sub-templates, shadowed at the use site by a binding to another global procedure
+    pre2 = "(define (tag x y) (list 'T x y)) (define (other x y) (list 'captured x y))"
+    ell_templates = [("sub-template", "(_ a ...)", "(list 'T ({F} a 1) ...)", "(mac 1 2)"), ("begin-sub-template", "(_ a ...)", "(begin ({F} a 1) ...)", "(mac 1 2)"),
+                     ("nested-ellipsis", "(_ (a ...) ...)", "(list (list ({F} a 1) ...) ...)", "(mac (1 2) (3))"), ("no-ellipsis", "(_ a b)", "(list ({F} a 1) ({F} b 1))", "(mac 1 2)"),
+                     ("argument-uses-name", "(_ a ...)", "(list ({F} a 1) ...)", "(mac ({F} 9 9))")]
+    ell_shadows = [("let", "(let (({F} other)) %s)"), ("lambda", "((lambda ({F}) %s) other)"), ("let-let", "(let (({F} other)) (let ((y 1)) %s))"), ("define-param", "(define (user {F}) %s) (user other)")]
+    for tk, pat, tmpl, use in ell_templates:
+        for sk, sh in ell_shadows:
+            d = "(define-syntax mac (syntax-rules () [%s %s]))" % (pat, tmpl)
+            # the template's free identifier is always `tag`; only the user's binder (and the user's own references) are re-spelled
+            dd = d.replace("{F}", "tag")
+            out.append(("free-in-ellipsis/%s/%s" % (tk, sk), [pre2, dd + " " + (sh % use)], {"F": "tag"}, {"F": "zzfreshf"}))
+            out.append(("free-in-ellipsis-same-unit/%s/%s" % (tk, sk), [pre2 + " " + dd + " " + (sh % use)], {"F": "tag"}, {"F": "zzfreshf"}))
     # nested / recursive / macro-defining macros introducing the same spelling
     out += [
         ("nested/template-uses-macro-with-same-binder",
